@@ -65,6 +65,9 @@ def search(ctx, N):
             kind = 5
         x = gen_nodes(rng, m, kind)
         x0 = float(rng.normal()) if t % 3 else float(x[rng.integers(0, m)])
+        if t % 5 == 4:
+            # an expansion point far outside the node range (1e3 .. 1e9 range-widths away): the weights are large but just as well determined
+            x0 = float(np.mean(x) + float(rng.choice([1e3, 1e6, 1e9])) * (float(np.max(x) - np.min(x)) or 1.0) * float(rng.choice([-1, 1])) * float(rng.uniform(1, 2)))
         # the same mathematical input in the container / number types a caller may use: integer-typed nodes (list of ints, integer ndarray)
         # with a fractional x0, lists and tuples of floats, numpy scalars
         x_in, how_in = x, 'float ndarray'
@@ -87,7 +90,8 @@ def search(ctx, N):
         for k in range(n + 1):
             scale = max(abs(e) for e in E[k]) or Fraction(1)
             err = max(abs(Fraction(float(w[k, v])) - E[k][v]) for v in range(m))
-            if err > Fraction(1, 10 ** 7) * scale:
+            # (measured on the unchanged tree over these node kinds, x0 near and far: <= 3e-15 x row scale)
+            if err > Fraction(1, 10 ** 10) * scale:
                 if ctx.violation('weights', 'fd_weights_all(x, x0, n=%d) row %d differs from the exact Lagrange-derivative weights by %.3g (row scale %.3g)' % (n, k, float(err), float(scale)),
                                  {'x': x.tolist(), 'x0': x0, 'n': n, 'row': k, 'got': w[k].tolist(), 'exact': [float(e) for e in E[k]], 'nodes_given_as': how_in,
                                   'how': 'numdifftools.fornberg.fd_weights_all(x, x0, n) with the nodes given as ' + how_in}):
